@@ -102,6 +102,10 @@ CORPUS_A = [
     ("case", "uchar", L(300)), ("case", "int", B("div", L(1), L(0))), ("case", "char", L(4294967296, "l")),
     ("enum", "int", L(4294967296, "l")), ("enum", "int", B("shl", L(1), neg(L(2)))),
     ("arr", "int", B("sub", L(0), L(0))), ("arr", "int", neg(L(3))), ("arr", "int", B("div", L(4), L(0))),
+    # enum / pointer objects: CContext.pack on EnumType (signed int format) and PointerType
+    ("einit", "int", neg(L(1))), ("einit", "int", L(4294967295, "u")), ("einit", "int", L(2147483648)),
+    ("einit", "int", neg(L(2147483648))), ("einit", "int", L(1 << 63, "ull")), ("einit", "int", B("div", L(1), L(0))),
+    ("pinit", "int", neg(L(1))), ("pinit", "int", L(18446744073709551615, "ull")), ("pinit", "int", L(4294967296, "l")),
 ]
 
 
@@ -136,7 +140,8 @@ def check_kernels(ctx):
     for _ in range(1500 if ctx.thorough else 250):
         e = gen_undefined(ctx.rng, ctx.rng.randint(1, 5 if ctx.thorough else 4))
         r = ctx.rng.random()
-        kind = "init" if r < 0.7 else ("case" if r < 0.85 else ("enum" if r < 0.93 else "arr"))
+        kind = ("init" if r < 0.55 else "einit" if r < 0.64 else "pinit" if r < 0.7 else
+                "case" if r < 0.85 else "enum" if r < 0.93 else "arr")
         cases.append((kind, ctx.rng.choice(X.TYPES) if kind in ("init", "case") else "int", e))
     cases = list(dict.fromkeys(cases))
     reqs = []
@@ -180,13 +185,25 @@ def check_kernels(ctx):
                 pimpl.append("ok " + cctx.pack(BasicType(tid), v).hex())
             except Exception as ex:  # noqa
                 pimpl.append("err " + type(ex).__name__)
+    from ppci.lang.c.nodes import types as ctypes_
+    enum_t = ctypes_.EnumType()
+    enum_t.constants = []
+    ptr_ts = [ctypes_.PointerType(BasicType("char")), ctypes_.PointerType(ctypes_.PointerType(BasicType("int")))]
+    for v in vals:
+        for rq, ty in ([(f"epack {v}", enum_t)] + [(f"ppack {v}", t_) for t_ in ptr_ts]):
+            preqs.append(rq)
+            try:
+                pimpl.append("ok " + cctx.pack(ty, v).hex())
+            except Exception as ex:  # noqa
+                pimpl.append("err " + type(ex).__name__)
     prep = ctx.driver("C28", preqs)
     for rq, i, m in zip(preqs, pimpl, prep):
         ctx.count("eval_pack")
         if i != m.replace("err struct.error", "err error"):
             ctx.disagree("pack", rq, i, m)
         if i.startswith("err"):
-            ctx.fail("kernel:pack:" + i.split()[1], f"CContext.{rq} raised {i.split()[1]}", {"request": rq}, impl=i, model=m)
+            what = {"epack": "[enum]", "ppack": "[pointer]"}.get(rq.split()[0], "")
+            ctx.fail(f"kernel:pack{what}:" + i.split()[1], f"CContext.{rq} raised {i.split()[1]}", {"request": rq}, impl=i, model=m)
 
 
 # ----------------------------------------------------------------------------------------------
@@ -204,9 +221,13 @@ class Gen:
         self.globals = []            # (name, type)
         self.arrays = []             # (name, elemtype, size)
         self.structs = []            # (tag, [(field, type)])
-        self.svars = []              # (name, tag)
+        self.svars = []              # (name, tag)   assignable struct objects
+        self.svars_ro = []           # const struct objects (read only)
+        self.ro = []                 # names of const scalar objects (read only)
         self.funcs = []              # (name, rettype, [paramtypes])
         self.enums = []              # enumerator names
+        self.enum_tags = []          # (tag, [(enumerator, value)])
+        self.typedefs = []           # typedef names of integer / enum types (chains)
 
     def fresh(self, p):
         self.n += 1
@@ -259,30 +280,76 @@ class Gen:
         out = []
         for _ in range(count):
             r = rng.random()
-            if r < 0.12:
-                names = [self.fresh("E") for _ in range(rng.randint(1, 4))]
-                body = ", ".join(n + (f" = {self.cexpr(1)}" if rng.random() < 0.5 else "") for n in names)
-                out.append(f"enum {self.fresh('en')} {{ {body} }};")
-                self.enums += names
+            if r < 0.16:
+                tag = self.fresh("en")
+                names, parts, val = [], [], -1
+                for _ in range(rng.randint(1, 4)):
+                    n = self.fresh("E")
+                    k = rng.random()
+                    if k < 0.45:
+                        val = rng.choice([-1, -2, -128, -32768, -2147483647 - 1, -2147483647, 2147483646, 2147483647,
+                                          65536, 255, 0, rng.randint(-1000, 1000)])
+                        txt = "(-2147483647 - 1)" if val == -2147483648 else f"({val})"
+                        parts.append(f"{n} = {txt}")
+                    elif val < 2147483647:
+                        val += 1
+                        parts.append(n)
+                    else:
+                        val = 0
+                        parts.append(f"{n} = 0")
+                    names.append((n, val))
+                out.append(f"enum {tag} {{ {', '.join(parts)} }};")
+                self.enums += [n for n, _ in names]
+                self.enum_tags.append((tag, names))
+                # objects of the enumerated type with static storage duration
+                for _ in range(rng.randint(1, 3)):
+                    q = rng.choice(["", "static ", "const ", "static const "])
+                    g = self.fresh("ge")
+                    init = rng.choice([n for n, _ in names] + [self.cexpr(1)])
+                    out.append(f"{q}enum {tag} {g} = {init};")
+                    self.globals.append((g, "int")) if "const" not in q else None
+                if rng.random() < 0.5:
+                    a = self.fresh("ae")
+                    out.append(f"enum {tag} {a}[{len(names) + 1}] = {{ " + ", ".join(n for n, _ in names) + " };")
+                if rng.random() < 0.5:
+                    td = self.fresh("TE")
+                    out.append(f"typedef enum {tag} {td};")
+                    td2 = self.fresh("TE")
+                    out.append(f"typedef {td} {td2};")
+                    out.append(f"{td2} {self.fresh('gt')} = {rng.choice(names)[0]};")
             elif r < 0.25:
                 tag = self.fresh("S")
-                fields = [(self.fresh("f"), rng.choice(ITYPES)) for _ in range(rng.randint(1, 4))]
+                ftypes = ITYPES + self.typedefs + [f"enum {t}" for t, _ in self.enum_tags]
+                fields = [(self.fresh("f"), rng.choice(ftypes)) for _ in range(rng.randint(1, 4))]
                 out.append(f"struct {tag} {{ " + " ".join(f"{t} {n};" for n, t in fields) + " };")
                 self.structs.append((tag, fields))
                 nm = self.fresh("sv")
                 init = ""
-                if rng.random() < 0.7:
+                k = rng.random()
+                if k < 0.5:
                     init = " = { " + ", ".join(self.cexpr(1) for _ in fields[: rng.randint(1, len(fields))]) + " }"
-                out.append(f"{rng.choice(['', 'static '])}struct {tag} {nm}{init};")
-                self.svars.append((nm, tag))
+                elif k < 0.8:       # designated, in any order
+                    pick = rng.sample(fields, rng.randint(1, len(fields)))
+                    init = " = { " + ", ".join(f".{n} = {self.cexpr(1)}" for n, _ in pick) + " }"
+                q = rng.choice(['', 'static ', 'const '])
+                out.append(f"{q}struct {tag} {nm}{init};")
+                (self.svars_ro if q == "const " else self.svars).append((nm, tag))
             elif r < 0.42:
                 ty = rng.choice(ITYPES)
                 nm = self.fresh("a")
                 size = rng.randint(1, 5)
                 init = ""
-                if rng.random() < 0.7:
+                k = rng.random()
+                if k < 0.55:
                     init = " = { " + ", ".join(self.cexpr(1) for _ in range(rng.randint(1, size))) + " }"
+                elif k < 0.75:
+                    idx = rng.sample(range(size), rng.randint(1, size))
+                    init = " = { " + ", ".join(f"[{j}] = {self.cexpr(1)}" for j in idx) + " }"
                 dim = str(size) if rng.random() < 0.6 else f"{size} + {self.cexpr(0)} * 0"
+                pos = [n for _, ns in self.enum_tags for n, v in ns if 0 < v < 64]
+                if pos and rng.random() < 0.2:
+                    e_ = rng.choice(pos)
+                    dim = f"{size} + {e_} - {e_}"
                 out.append(f"{ty} {nm}[{dim}]{init};")
                 self.arrays.append((nm, ty, size))
             elif r < 0.5 and self.globals:
@@ -291,15 +358,21 @@ class Gen:
                 out.append(f"{ty} *{nm} = &{g};")
             elif r < 0.55:
                 nm = self.fresh("T")
-                out.append(f"typedef {rng.choice(ITYPES)} {nm};")
-                pass
+                out.append(f"typedef {rng.choice(ITYPES + self.typedefs)} {nm};")
+                self.typedefs.append(nm)
+                if rng.random() < 0.7:
+                    q = rng.choice(["", "const ", "static "])
+                    out.append(f"{q}{nm} {self.fresh('gd')} = {self.cexpr(2)};")
             else:
                 ty = rng.choice(ITYPES)
                 nm = self.fresh("g")
                 q = rng.choice(["", "", "static ", "const ", "volatile "])
                 init = f" = {self.cexpr(rng.randint(0, 3))}" if rng.random() < 0.8 else ""
                 out.append(f"{q}{ty} {nm}{init};")
-                self.globals.append((nm, ty))
+                if q == "const ":
+                    self.ro.append(nm)
+                else:
+                    self.globals.append((nm, ty))
         return out
 
     # ---- run-time expressions / statements
@@ -312,8 +385,10 @@ class Gen:
             if r < 0.6 and self.arrays:
                 a, _, n = rng.choice(self.arrays)
                 return f"{a}[{rng.randrange(n)}]"
-            if r < 0.7 and self.svars:
-                sv, tag = rng.choice(self.svars)
+            if r < 0.55 and self.ro:
+                return rng.choice(self.ro)
+            if r < 0.7 and (self.svars or self.svars_ro):
+                sv, tag = rng.choice(self.svars + self.svars_ro)
                 fields = dict(self.structs)[tag]
                 return f"{sv}.{rng.choice(fields)[0]}"
             if r < 0.75 and self.enums:
@@ -400,6 +475,14 @@ class Gen:
             init = f" = {self.rexpr(1, env)}" if rng.random() < 0.7 else ""
             parts.append(f"{ty} {nm}{init};")
             env.append((nm, ty))
+        if rng.random() < 0.25:      # objects with static storage duration inside a function
+            nm = self.fresh("sl")
+            if self.enum_tags and rng.random() < 0.6:
+                tag, names = rng.choice(self.enum_tags)
+                parts.append(f"static enum {tag} {nm} = {rng.choice(names)[0]};")
+            else:
+                parts.append(f"static {rng.choice(ITYPES + self.typedefs)} {nm} = {self.cexpr(1)};")
+            env.append((nm, "int"))
         for _ in range(rng.randint(1, 3)):
             parts.append(self.stmt(depth, env, in_loop, ret))
         return "{ " + " ".join(parts) + " }"
@@ -427,6 +510,20 @@ def gen_unit(rng):
     return "\n".join(parts) + "\n", g
 
 
+ENUM_UNIT = """enum status { ST_FAIL = -1, ST_OK, ST_BIG = 2147483647, ST_MIN = -2147483647 - 1 };
+enum status last = ST_FAIL;
+static enum status s2 = ST_MIN;
+const enum status s3 = ST_BIG;
+typedef int T1; typedef T1 T2; typedef enum status ES; typedef ES ES2;
+T2 g1 = -5; ES2 g2 = ST_FAIL; const T2 g3 = 300;
+struct S { enum status e; char c; ES2 e2; long l; } sv = { ST_FAIL, 'a', ST_MIN, -1 };
+struct S sd = { .c = 1, .e = ST_FAIL, .l = 7 };
+enum status arr[3] = { ST_FAIL, ST_OK };
+int ai[4] = { [2] = ST_FAIL, [0] = 1 };
+char sized[ST_OK + 3];
+int f(int x) { static enum status loc = ST_FAIL; static T2 l2 = -7; switch (x) { case ST_FAIL: return 1; case ST_MIN: return 2; case ST_BIG: return 3; } return loc + l2; }
+"""
+
 CORPUS_B = [
     "int neg(void) { unsigned char c = 1; return -c; }\n",
     "unsigned char c = 300; signed char d = -200; short s = 70000; unsigned u = -1; long l = 9223372036854775807;\n",
@@ -435,6 +532,7 @@ CORPUS_B = [
     "int f(int x) { int r = 0; for (int i = 0; i < 10; i++) { if (i % 3 == 0) continue; r += i << 1; } while (r > 3) r /= 2; do r--; while (r > 0); return r ? x : -x; }\n",
     "typedef unsigned long T; T g = 5; T h(T a, unsigned char b) { return a * b + (T)-1 / 3; }\n",
     "int g; int *p = &g; int f(void) { int *q = &g; *q = 3; return *p + sizeof(g) + sizeof(int); }\n",
+    ENUM_UNIT,
     # syntactically valid, violates a constraint: must be a diagnostic (open finding c:TypeError:ir.setter)
     "void f(void) {}\nvoid g(void) { long long v = f(); }\n",
 ]
